@@ -297,11 +297,11 @@ func (c *Client) Listen() error {
 				break
 			}
 
+			// A datagram that cannot be handled (malformed, a STUN request, non-STUN data from the
+			// STUN server) is dropped; it must not stop the client from reading what follows.
 			_, err = c.HandleInbound(buf[:n], from)
 			if err != nil {
-				c.log.Debugf("Failed to handle inbound message: %s. Exiting loop", err)
-
-				break
+				c.log.Debugf("Failed to handle inbound message: %s", err)
 			}
 		}
 
